@@ -190,6 +190,9 @@ def eigen_case(kind, method, x, P, NSIG, NFFT, m):
 
 
 def replay(rep):
+    if rep.get('replay', {}).get('form') == 'routes':
+        from props import _estimators as E_
+        return E_.replay_routes(rep['replay'])
     r = rep['replay']; x = vlib.unhexv(r['x'])
     if r['datatype'] == 'real':
         x = np.real(x)
@@ -213,6 +216,9 @@ def run(ctx):
     from spectrum import CORRELATION, LEVINSON
     rng = ctx.rng
     ctx.check_theorems('Properties/C04.v')
+    # the estimate an object holds does not depend on the history that gave it its data and settings (every route of _estimators.via)
+    from props import _estimators as E_
+    E_.class_route_stream(ctx, E_.CLASSES, 'routes')
 
     # ---------------- class-level theorems over the pipeline table generated from the snapshot source
     src = os.path.join(vlib.SNAP, 'src', 'spectrum')
